@@ -103,6 +103,11 @@ func Corpus() *Program {
 		fld("Items", 9, KMessage, ref("WithOneof"), list()),
 		fld("ByKey", 10, KMessage, ref("WithOneof"), mapOf(), nonNull()))
 
+	// two oneof groups whose branches interleave with each other and with plain fields once sorted by name
+	msg("Interleave", []string{"Source", "target"},
+		fld("AFile", 1, KString, oneof("Source")), fld("BGroup", 2, KString, oneof("target")),
+		fld("CInline", 3, KInt64, oneof("Source")), fld("DHost", 4, KMessage, ref("Leaf"), oneof("target")),
+		fld("BPlain", 5, KString), fld("EOther", 6, KBool, oneof("Source")), fld("AaList", 7, KString, list()))
 	msg("EmbV", nil,
 		fld("EvStr", 1, KString), fld("EvNum", 2, KInt64), fld("EvLeaf", 3, KMessage, ref("Leaf")),
 		fld("EvTags", 4, KString, list()))
@@ -178,11 +183,12 @@ func Corpus() *Program {
 
 	p.Config = Config{
 		Types: []string{"Scalars", "Temporal", "Collections", "Nesting", "Oneofs", "Embedding", "EmbedOneof",
-			"EmbedDeep", "Naming", "Empties", "Sink", "DeepNest"},
+			"EmbedDeep", "Naming", "Empties", "Sink", "DeepNest", "Interleave"},
 		DurationCustomType:          DurationCastName,
 		TimeType:                    SimTimeType,
 		DurationType:                SimDurationType,
-		ExcludeFields:               []string{"Naming.Secret", "Naming.SecretList", "NamedLeaf.Hidden", "Naming.Other.Skip", "EmbP.EpHidden", "Nesting.PtrList.Attrs", "DeepNest.Out.ByKey.LeafMap"},
+		ExcludeFields:               []string{"Naming.Secret", "Naming.SecretList", "NamedLeaf.Hidden", "Naming.Other.Skip", "EmbP.EpHidden", "Nesting.PtrList.Attrs", "DeepNest.Out.ByKey.LeafMap",
+			"Oneofs.ChB", "WithOneof.VarI", "Interleave.CInline"}, // branches of oneof groups that keep other branches in the schema,
 		ComputedFields:              []string{"Scalars.FString", "Sink.Count", "Leaf.Num", "Sink.Spec.Name"},
 		RequiredFields:              []string{"Sink.Name", "Scalars.FInt32"},
 		SensitiveFields:             []string{"Sink.Data", "Leaf.Str"},
